@@ -212,6 +212,7 @@ def openDatabase (cfg : Config) (file : Buf) : Py (Database × VersionIf) := do
         if hdr.sqliteVersion ≥ Generated.SQLITE_3_7_0_VERSION_NUMBER then (.error .parseError : Py DbSize)
         else pure ⟨fsize, ps⟩
       else if hdr.versionValidFor ≠ hdr.changeCounter then pure ⟨fsize, ps⟩
+      else if hdr.sizeInPages * ps ≥ fsize + ps then .error .parseError    -- more pages than the file can hold (fix: commit)
       else pure ⟨hdr.sizeInPages, 1⟩)
     let v := dbVersionIf cfg ps dsize fh
     let updated := (List.range dsize.floor).map (· + 1)
